@@ -636,8 +636,12 @@ func LoadReplay(path string) (*ReplayFile, error) {
 
 // RepoTreeID identifies the tree under test: HEAD plus a hash of the working tree diff.
 func RepoTreeID() string {
-	head, _ := exec.Command("git", "-C", "/repo", "rev-parse", "--short", "HEAD").Output()
-	diff, _ := exec.Command("git", "-C", "/repo", "diff", "HEAD").Output()
+	repo := os.Getenv("VERIF_REPO")
+	if repo == "" {
+		repo = "/repo"
+	}
+	head, _ := exec.Command("git", "-C", repo, "rev-parse", "--short", "HEAD").Output()
+	diff, _ := exec.Command("git", "-C", repo, "diff", "HEAD").Output()
 	id := strings.TrimSpace(string(head))
 	if len(bytes.TrimSpace(diff)) > 0 {
 		h := sha256.Sum256(diff)
